@@ -25,7 +25,7 @@ NEED = ["mode_ldaps", "mode_starttls", "result_ok", "result_err", "result_pendin
         "ready_verify_true_cert_trusted", "ready_verify_false_cert_untrusted", "ready_verify_false_cert_wrongName",
         "ready_with_injection_real_answer_returned"]
 
-CF = {"mode": "starttls", "verify": True, "connector": "custom", "timeout": "none", "via": "dial"}
+CF = {"mode": "starttls", "verify": True, "connector": "custom", "timeout": "none", "via": "dial", "host": "name", "store": "system"}
 SC = {"resp": "success", "rc": 0, "inj": "with", "hs": "trusted"}
 GOOD = [{"e": "accept"}, {"e": "clear", "k": "starttls"}, {"e": "hello"}, {"e": "result", "r": "ok", "late": False},
         {"e": "bindseen", "ch": "tls"}, {"e": "bindresult", "rc": 49}]
@@ -69,6 +69,18 @@ def run(tier):
     obs2 = os.path.join(d, "est-obs-2.ndjson")
     C.harness("setup-run", ["replay", "est", out, rep2_path, obs2], timeout=3000, env=dict(env, SETUP_WARMUP="verify"))
     rep2 = C.load(rep2_path)
+    # third process: the trust store of the default connector contains the test CA (SSL_CERT_FILE)
+    rep3_path = os.path.join(d, "est-replay-3.json")
+    obs3 = os.path.join(d, "est-obs-3.ndjson")
+    C.harness("setup-run", ["replay", "est", out, rep3_path, obs3], timeout=3000, env=dict(env, SETUP_STORE="withCA"))
+    rep3 = C.load(rep3_path)
+    rep3["lane"] = rep3["lane"] + " (trust store with the test CA)"
+    chk.report(rep3, "S->I: adversary scripts of MCSetupEst, third process (store = withCA)")
+    c3 = rep3["counters"]
+    for k in ("default_withCA_verify_name_trusted_ok", "default_withCA_verify_ip_trusted_ok", "default_withCA_verify_ip_wrongName_err",
+              "default_withCA_verify_name_wrongName_err"):
+        if c3.get(k, 0) == 0 and rep3["mismatch_total"] == 0:
+            chk.tool_error("the store=withCA process never observed %s (is SSL_CERT_FILE honoured?)" % k)
     rep2["lane"] = rep2["lane"] + " (first TLS connection of the process verifies)"
     rep["lane"] = rep["lane"] + " (first TLS connection of the process does not verify)"
     chk.report(rep2, "S->I: adversary scripts of MCSetupEst, second process")
@@ -76,10 +88,12 @@ def run(tier):
         chk.tool_error("the warm-up connection was not made")
     with open(obs, "a") as f:
         f.write(open(obs2).read())
+        f.write(open(obs3).read())
+    os.remove(obs3)
     os.remove(out)
     cnt = rep["counters"]
-    if cnt.get("vectors", 0) != nvec_tlc or nvec_tlc == 0:
-        chk.tool_error("vector count %s differs from what TLC printed (%s)" % (cnt.get("vectors"), nvec_tlc))
+    if cnt.get("vectors", 0) + c3.get("vectors", 0) != nvec_tlc or nvec_tlc == 0 or c3.get("vectors", 0) == 0:
+        chk.tool_error("vector counts %s + %s differ from what TLC printed (%s)" % (cnt.get("vectors"), c3.get("vectors"), nvec_tlc))
     missing = [k for k in NEED if cnt.get(k, 0) == 0]
     if missing and rep["mismatch_total"] == 0:
         chk.tool_error("the replay never observed: %s (vacuous)" % ", ".join(missing))
@@ -102,7 +116,9 @@ def run(tier):
                     "StartTLS response (ldaps: before the handshake), then {CA-signed localhost leaf, self-signed leaf, CA-signed leaf "
                     "for another name, silence, close, non-TLS bytes} on the ClientHello - also after a refusal/garbage/wrong ID - x "
                     "(ldaps | StartTLS) x no_tls_verify x (connector trusting the CA | default) x (conn_timeout none | 1.5 s) x (the library dials | "
-                    "a connected TcpStream handed in with set_std_stream() as the last | as the first setter of the chain); "
+                    "a connected TcpStream handed in with set_std_stream() as the last | as the first setter of the chain); for the dialled "
+                    "connection also (server addressed by DNS name | IP literal) x (default connector's trust store without | with the "
+                    "test CA) on the scripts in which a certificate is judged; "
                     "non-trivial = the server deviates from the honest script somewhere; distinct by configuration and script")
     chk.assumptions += [
         "TLC and the CommunityModules Json reader are correct",
